@@ -98,7 +98,11 @@ def run_one(seed, preset=None, tier="quick", want_case=False):
             probe = RefExec(schema, doc, Tape(seed, preset), "proben%d" % i).run(s.op_name, nv)
             if not probe.refused:
                 s.variables = nv
-                s.arg_failure = any(len(e.path) == 1 and str(e.kind).startswith("argument:") for e in probe.errors)
+        if not s.refused:
+            # whatever the variables, the root field's arguments may be impossible to coerce (e.g. a null default nested
+            # in a list of non-null items): then no source stream can be created
+            probe = RefExec(schema, doc, Tape(seed, preset), "probea%d" % i).run(s.op_name, s.variables)
+            s.arg_failure = (not probe.refused) and any(len(e.path) == 1 and str(e.kind).startswith("argument:") for e in probe.errors)
         if ot.chance(40):
             s.initial = {"_decoy_initial_value": i}
         if not s.refused and not s.arg_failure:
